@@ -63,7 +63,7 @@ type c10Dumper struct {
 }
 
 func c10DumpRules(r *fw.Run, p *fw.Program) {
-	ru := r.Rule("C10.dump.addr", "dump row arithmetic: both column writers get LineBytes and the same start offset; first row address + offset == first byte read (with x%l == x-l*(x/l)); row i prints address0 + i*LineBytes for i=1..rows-1; rows == lastByte/l - firstByte/l + 1; bytes read == 8*(lastByte-firstByte+1) up to clamps; an untruncated value ends at its last bit; the bits read are clamped to exactly bitLen(root buffer) - firstBit", 13)
+	ru := r.Rule("C10.dump.addr", "dump row arithmetic: both column writers get LineBytes and the same start offset; first row address + offset == first byte read (with x%l == x-l*(x/l)); row i prints address0 + i*LineBytes for i=1..rows-1; rows == lastByte/l - firstByte/l + 1; bytes read == 8*(lastByte-firstByte+1) up to clamps; an untruncated value ends at its last bit; the bits read are clamped to exactly bitLen(root buffer) - firstBit; every value of the last displayed bit is guarded to be <= the value's last bit; the range displayed is InnerRange() of the dumped value", 15)
 	cands := c10FindByRole(p, "pkg/interp", c10HexNew)
 	if len(cands) != 1 {
 		ru.Undecided("anchor:dumpEx", "", fmt.Sprintf("%d functions in pkg/interp construct a hexpairwriter (expected exactly the tree dumper)", len(cands)))
@@ -215,7 +215,7 @@ func c10DumpRules(r *fw.Run, p *fw.Program) {
 	var eq *ssa.BinOp
 	nq := 0
 	for _, q := range c10CollectBinOps(bound, token.QUO) {
-		if !env.Of(q.Y).Equal(d.L) {
+		if dv := c10Divisor(env, q); dv == nil || !dv.Equal(d.L) {
 			continue
 		}
 		nq++
@@ -257,13 +257,13 @@ func c10DumpRules(r *fw.Run, p *fw.Program) {
 
 	// last displayed byte: lastBit/8 where, unless display_bytes truncation applies, lastBit is the value's last bit
 	eBin, _ := c10Strip(eq.X).(*ssa.BinOp)
-	if eBin == nil || eBin.Op != token.QUO || !env.Of(eBin.Y).Equal(fw.PConst(8)) {
+	if dv := c10Divisor(env, eBin); dv == nil || !dv.Equal(fw.PConst(8)) {
 		ru.Undecided("last:untruncated", pos(eq), "last displayed byte "+d.E.String()+" is not lastBit/8")
 		return
 	}
 	// the range: S must be range.Start/8
 	sBins := c10CollectBinOps(d.R.Call.Args[1], token.QUO)
-	if len(sBins) != 1 || !env.Of(sBins[0].Y).Equal(fw.PConst(8)) {
+	if len(sBins) != 1 || !c10Divisor(env, sBins[0]).Equal(fw.PConst(8)) {
 		ru.Undecided("range:start", pos(d.R), "first displayed byte "+d.S.String()+" is not start/8 of a range")
 		return
 	}
@@ -307,6 +307,9 @@ func c10DumpRules(r *fw.Run, p *fw.Program) {
 	}
 	ru.Check(nStop >= 1 && bad == "", "last:untruncated", pos(eq), "last displayed bit is start+len-1 unless display_bytes > 0 and len > 8*display_bytes",
 		"the last displayed bit can be "+bad+" without the display_bytes truncation applying: an untruncated value is not shown completely")
+
+	c10DumpLastWithin(ru, d, eBin.X, stopBit, pos(eq))
+	c10DumpInner(ru, d, startV, pos(d.R))
 
 	c10DumpRange(r, d, stopBit, lenP)
 	c10DumpSrc(r, d)
@@ -451,7 +454,7 @@ func c10ShrinkingEdge(env *fw.PolyEnv, lf c10Leaf) bool {
 // C10.dump.range: what is printed as range/size is the range the bytes come from
 
 func c10DumpRange(r *fw.Run, d *c10Dumper, stopBit, lenP *fw.Poly) {
-	ru := r.Rule("C10.dump.range", "verbose range/size and the truncation marker print the same range the displayed bytes are read from: BitRange(range) in addrbase, Bits(range.Len) in sizebase, marker 'until' start+len-1 with BitsByteCount(len), printed iff the value's last byte is not displayed; its end-of-buffer annotation iff the value's last bit is the root buffer's last bit", 5)
+	ru := r.Rule("C10.dump.range", "verbose range/size and the truncation marker print the same range the displayed bytes are read from: BitRange(range) in addrbase, Bits(range.Len) in sizebase, marker 'until' start+len-1 with BitsByteCount(len), printed iff the value's last byte is not displayed; its end-of-buffer annotation iff the value's last bit is the root buffer's last bit; anything else printed into the hex/ascii columns after the bytes (end-of-buffer bar) only where the last displayed byte is the buffer's last byte", 6)
 	p, env := d.p, d.env
 	pos := func(v ssa.Value) string { return p.Rel(v.Pos()) }
 	// BitRange(range).StringByteBits(Addrbase)
@@ -550,6 +553,7 @@ func c10DumpRange(r *fw.Run, d *c10Dumper, stopBit, lenP *fw.Poly) {
 			}
 		})
 	}
+	c10DumpEndMark(ru, d, untilCall)
 	// size in the marker: BitsByteCount(len) in sizebase
 	found := false
 	for _, c := range c10CallsTo(d.fn, c10PadInt) {
@@ -723,7 +727,7 @@ func c10PrintColumn(v ssa.Value) (int64, bool) {
 // C10.dump.cols: column widths fit what is written into them
 
 func c10DumpCols(r *fw.Run, d *c10Dumper, firstAddr *ssa.Call) {
-	ru := r.Rule("C10.dump.cols", "the column the hex writer fills is 3*LineBytes-1 wide, the ascii column LineBytes wide (wider content is cut by FlushLine); LenFn/SliceFn are set together; root indent + address pad width never exceeds the address column width; the width pre-pass uses the same prefix/base/indent as the address print", 10)
+	ru := r.Rule("C10.dump.cols", "the column the hex writer fills is 3*LineBytes-1 wide, the ascii column LineBytes wide (wider content is cut by FlushLine); LenFn/SliceFn are set together; root indent + address pad width never exceeds the address column width; at the outermost root it fits for every tree depth; the width pre-pass uses the same prefix/base/indent as the address print and keeps the maximum", 12)
 	p := d.p
 	pos := func(v ssa.Value) string { return p.Rel(v.Pos()) }
 	cands := c10FindByRole(p, "pkg/interp", c10ColNew)
@@ -860,6 +864,7 @@ func c10DumpCols(r *fw.Run, d *c10Dumper, firstAddr *ssa.Call) {
 		key := fmt.Sprintf("addrwidth:fits#%d", i)
 		ru.Check(isC && k >= 0, key, pos(cs), "indent + pad width == address column width",
 			"address column is "+wcol.String()+" wide but the row prints indent "+ind.String()+" + address padded to "+pw.String()+" (excess "+diff.Neg().String()+"): FlushLine cuts the last digit(s) of the address on nested roots")
+		c10DumpRootFits(ru, p, cs, i, wcol, c10RenameLocal(ind), c10RenameLocal(pw))
 	}
 	c10DumpHeader(ru, p, dump, env)
 	// pre-pass: DigitsInBase(BitsByteCount(range.Stop()), true, Addrbase) + same indent multiplier
@@ -886,6 +891,7 @@ func c10DumpCols(r *fw.Run, d *c10Dumper, firstAddr *ssa.Call) {
 		ru.Undecided("digits:indent", pos(dg[0]), "digit count is not added to an indent")
 		return
 	}
+	c10DumpWidthMax(ru, p, sum, denv, pos(dg[0]))
 	preIndent := denv.Of(sum).Sub(denv.Of(dg[0]))
 	// compare shape: k*<param> with the same k
 	ru.Check(c10SingleCoef(preIndent) == c10SingleCoef(indentPoly) && c10SingleCoef(indentPoly) != 0, "digits:indent", pos(dg[0]), "pre-pass indent multiplier equals the printed indent multiplier",
